@@ -55,6 +55,10 @@ type DirectConnection struct {
 	capability uint32
 
 	sessionVariables *mysql.SessionVariables
+	// sessionStale is set when the last SET statement failed: charset, collation and
+	// sessionVariables then describe what was asked for, not what the backend session has,
+	// so the next SetCharset/SetSessionVariables must report a change and send everything again.
+	sessionStale bool
 
 	status uint16
 
@@ -832,7 +836,7 @@ func (dc *DirectConnection) SetCharset(charset string, collation mysql.Collation
 	}
 
 	if dc.charset == charset && dc.collation == collation {
-		return false, nil
+		return dc.sessionStale, nil
 	}
 
 	_, ok := mysql.CharsetIds[charset]
@@ -878,7 +882,8 @@ func (dc *DirectConnection) ResetConnection() error {
 
 // SetSessionVariables set direction variables according to Session
 func (dc *DirectConnection) SetSessionVariables(frontend *mysql.SessionVariables) (bool, error) {
-	return dc.sessionVariables.SetEqualsWith(frontend)
+	changed, err := dc.sessionVariables.SetEqualsWith(frontend)
+	return changed || dc.sessionStale, err
 }
 
 // SyncSessionVariables synchronizes the session variables from the provided frontend session
@@ -917,7 +922,8 @@ func (dc *DirectConnection) WriteSetStatement() error {
 		appendSetVariable(&setVariableSQL, v.Name(), v.Get())
 	}
 
-	for _, v := range dc.sessionVariables.GetUnusedAndClear() {
+	unused := dc.sessionVariables.GetUnusedAndClear()
+	for _, v := range unused {
 		appendSetVariableToDefault(&setVariableSQL, v.Name())
 	}
 
@@ -926,8 +932,14 @@ func (dc *DirectConnection) WriteSetStatement() error {
 		return nil
 	}
 	if _, err := dc.exec(setSQL, 0); err != nil {
+		// the backend refused the whole statement and keeps its previous session state:
+		// the variables that should have been reset are still set there, and nothing of
+		// what was recorded by SetCharset/SetSessionVariables has been applied
+		dc.sessionVariables.RestoreUnused(unused)
+		dc.sessionStale = true
 		return err
 	}
+	dc.sessionStale = false
 	return nil
 }
 
